@@ -1,0 +1,6 @@
+//go:build !verif
+
+package evm
+
+// verifPoolLockGate is a no-op in ordinary builds (see verif_export.go, build tag "verif").
+func verifPoolLockGate() {}
